@@ -127,15 +127,38 @@ func (l *loopInfo) induction(v ssa.Value) *ssa.Phi {
 		if !l.blocks[pred] {
 			continue
 		}
-		bo, ok := strip(e).(*ssa.BinOp)
-		if !ok || bo.Op != token.ADD || strip(bo.X) != ssa.Value(phi) {
-			return nil
-		}
-		if c, isC := intConst(bo.Y); !isC || c <= 0 {
+		if !l.stepsUp(e, phi, 0) {
 			return nil
 		}
 	}
 	return phi
+}
+
+// stepsUp: the value carried round the loop is phi + c with c > 0; where values are merged on the
+// way (an expanded helper that counts and reports through a flag), every incoming value that can
+// still reach the header is, and the others belong to paths that leave the loop.
+func (l *loopInfo) stepsUp(e ssa.Value, phi *ssa.Phi, depth int) bool {
+	e = strip(e)
+	if bo, ok := e.(*ssa.BinOp); ok && bo.Op == token.ADD && strip(bo.X) == ssa.Value(phi) {
+		c, isC := intConst(bo.Y)
+		return isC && c > 0
+	}
+	m, ok := e.(*ssa.Phi)
+	if !ok || depth > 3 || m.Block() == l.header || !l.blocks[m.Block()] {
+		return false
+	}
+	n := 0
+	for i, e2 := range m.Edges {
+		pred := m.Block().Preds[i]
+		if l.landsOutside(pred, m.Block()) {
+			continue
+		}
+		n++
+		if !l.stepsUp(e2, phi, depth+1) {
+			return false
+		}
+	}
+	return n >= 1
 }
 
 // exitsOn: the If at the end of block b leaves the loop on the edge taken when its
@@ -148,9 +171,46 @@ func (l *loopInfo) exitsOn(b *ssa.BasicBlock) (cond ssa.Value, val bool, ok bool
 	}
 	out0, out1 := !l.blocks[b.Succs[0]], !l.blocks[b.Succs[1]]
 	if out0 == out1 {
-		return nil, false, false
+		// the branch may leave the loop a few blocks later: through blocks that only jump, and
+		// through a merge block that branches on a flag the arrival edge decides ("ok = false; break"
+		// followed by "if !ok { return }" — the shape an expanded helper with a boolean result has)
+		out0, out1 = l.landsOutside(b, b.Succs[0]), l.landsOutside(b, b.Succs[1])
+		if out0 == out1 {
+			return nil, false, false
+		}
 	}
 	return ifi.Cond, out0, true
+}
+
+// landsOutside: control that takes the edge pred→b ends up outside the loop without any choice
+// being made on the way.
+func (l *loopInfo) landsOutside(pred, b *ssa.BasicBlock) bool {
+	for n := 0; n < 8; n++ {
+		if !l.blocks[b] {
+			return true
+		}
+		if len(b.Instrs) == 0 {
+			return false
+		}
+		onlyJump := true
+		for _, in := range b.Instrs {
+			switch in.(type) {
+			case *ssa.Jump, *ssa.DebugRef:
+			default:
+				onlyJump = false
+			}
+		}
+		if onlyJump && len(b.Succs) == 1 {
+			pred, b = b, b.Succs[0]
+			continue
+		}
+		p2, b2 := threadFrom(pred, b)
+		if b2 == b {
+			return false
+		}
+		pred, b = p2, b2
+	}
+	return !l.blocks[b]
 }
 
 type loopClass struct {
